@@ -75,6 +75,7 @@ type Exec struct {
 	frameOn      bool
 	retHook      func(val Val)
 	externSites  int
+	sym          *symSession
 	tailNext     bool
 	retGuards    []*Term
 }
